@@ -349,10 +349,18 @@ class Node:
                 return default is None
 
             if value_node.tag == 'tag:yaml.org,2002:int':
-                return int(value_node.value) == int(default)
+                try:
+                    return int(value_node.value) == default
+                except ValueError:
+                    return False
 
             if value_node.tag == 'tag:yaml.org,2002:float':
-                return float(value_node.value) == float(default)
+                try:
+                    return float(
+                            value_node.value.replace('.inf', 'inf').replace(
+                                '.nan', 'nan')) == default
+                except ValueError:
+                    return False
 
             if value_node.tag == 'tag:yaml.org,2002:bool':
                 if default is False:
